@@ -17,12 +17,14 @@ import (
 	"time"
 
 	getty "github.com/apache/dubbo-getty"
+	"github.com/prometheus/client_golang/prometheus"
 	"pgregory.net/rapid"
 
 	seatasql "seata.apache.org/seata-go/pkg/datasource/sql"
 	"seata.apache.org/seata-go/pkg/datasource/sql/datasource"
 	"seata.apache.org/seata-go/pkg/protocol/branch"
 	"seata.apache.org/seata-go/pkg/remoting/loadbalance"
+	"seata.apache.org/seata-go/pkg/rm"
 	"seata.apache.org/seata-go/pkg/rm/tcc"
 	"seata.apache.org/seata-go/pkg/tm"
 
@@ -506,11 +508,95 @@ func TestPropConcurrentSelection(t *testing.T) {
 	})
 }
 
+// ---- a burst of phase-two commits against the AT commit worker -----------------------------------
+
+type burstCase struct {
+	Kind       string `json:"kind"` // burst
+	Senders    int    `json:"senders"`
+	Each       int    `json:"each"`
+	Limit      int    `json:"buffer_limit"`
+	IntervalMs int    `json:"interval_ms"`
+	Chan       int    `json:"receive_chan"`
+	Workers    int    `json:"workers"`
+	WorkerBuf  int    `json:"worker_buffer"`
+}
+
+// runBurst: several goroutines deliver AT branch commits (as the coordinator's phase-two traffic does)
+// to one commit worker whose flushes overlap with the arrivals. Judged by the race detector, by
+// termination, and by the undo log being empty afterwards (every accepted commit was carried out).
+func runBurst(c burstCase) *pt.Failure {
+	return pt.Guard("C20/crash", func() *pt.Failure {
+		env.ResetCase()
+		env.CleanUndo()
+		xid := func(g int) string { return fmt.Sprintf("10.0.0.1:8091:%d", 7000+g) }
+		for g := 0; g < c.Senders; g++ {
+			for k := 0; k < c.Each; k++ {
+				if _, err := env.Bare.Exec("INSERT INTO undo_log (branch_id, xid, context, rollback_info, log_status, log_created, log_modified) VALUES (?, ?, 'serializer=json', x'7b7d', 0, now(6), now(6))", int64(g*1000+k+1), xid(g)); err != nil {
+					return pt.Failf("C20/harness/setup", "%v", err)
+				}
+			}
+		}
+		mgr := datasource.GetDataSourceManager(branch.BranchTypeAT)
+		aw := seatasql.NewAsyncWorker(prometheus.NewRegistry(), seatasql.AsyncWorkerConfig{BufferLimit: c.Limit, BufferCleanInterval: time.Duration(c.IntervalMs) * time.Millisecond,
+			ReceiveChanSize: c.Chan, CommitWorkerCount: c.Workers, CommitWorkerBufferSize: c.WorkerBuf}, mgr)
+		var wg sync.WaitGroup
+		var refused int64
+		for g := 0; g < c.Senders; g++ {
+			wg.Add(1)
+			go func(g int) {
+				defer wg.Done()
+				for k := 0; k < c.Each; k++ {
+					st, err := aw.BranchCommit(context.Background(), rm.BranchResource{ResourceId: env.ResourceID, Xid: xid(g), BranchId: int64(g*1000 + k + 1), BranchType: branch.BranchTypeAT})
+					if err != nil || st != branch.BranchStatusPhasetwoCommitted {
+						atomic.AddInt64(&refused, 1)
+					}
+				}
+			}(g)
+		}
+		done := make(chan struct{})
+		go func() { wg.Wait(); close(done) }()
+		select {
+		case <-done:
+		case <-time.After(20 * time.Second):
+			return pt.Failf("C20/burst/senders-blocked", "branch commits did not return within 20s (%+v)", c)
+		}
+		if refused > 0 {
+			return pt.Failf("C20/burst/not-answered-committed", "%d branch commits were not answered committed", refused)
+		}
+		deadline := time.Now().Add(8 * time.Second)
+		for {
+			left := env.Srv.Rows(atenv.Schema, "undo_log")
+			if len(left) == 0 {
+				return nil
+			}
+			if time.Now().After(deadline) {
+				return pt.Failf("C20/burst/commit-lost", "%d of %d undo-log rows were never deleted although every commit was accepted (%+v)", len(left), c.Senders*c.Each, c)
+			}
+			time.Sleep(5 * time.Millisecond)
+		}
+	})
+}
+
+func TestPropPhaseTwoBurst(t *testing.T) {
+	ctx.Check(t, func(rt *rapid.T) {
+		c := burstCase{Kind: "burst", Senders: rapid.IntRange(2, 6).Draw(rt, "senders"), Each: rapid.IntRange(5, 40).Draw(rt, "each"),
+			Limit: rapid.IntRange(3, 30).Draw(rt, "limit"), IntervalMs: rapid.IntRange(1, 10).Draw(rt, "interval"), Chan: rapid.IntRange(1, 16).Draw(rt, "chan"),
+			Workers: rapid.IntRange(1, 4).Draw(rt, "workers"), WorkerBuf: rapid.IntRange(1, 8).Draw(rt, "workerBuf")}
+		fl := runBurst(c)
+		ctx.Rec.Case("burst", true, fmt.Sprintf("burst|%d|%d|%d|%d|%d", c.Senders, c.Each/10, c.Limit/10, c.IntervalMs/4, c.Workers), c, "kind:burst")
+		ctx.Judge(rt, "burst", fl, c)
+	})
+}
+
 func TestPropReplaySaved(t *testing.T) {
 	ctx.ReplayAll(t, func(v *stats.Violation) *pt.Failure {
 		var l lbCase
 		if err := json.Unmarshal(v.Case, &l); err == nil && l.Kind == "selection" {
 			return runSelection(l)
+		}
+		var b burstCase
+		if err := json.Unmarshal(v.Case, &b); err == nil && b.Kind == "burst" {
+			return runBurst(b)
 		}
 		var c Case
 		if err := json.Unmarshal(v.Case, &c); err != nil {
